@@ -841,6 +841,36 @@ func c16(r *core.Report) {
 			}
 		}
 	}
+	// ---- C16-TEXT-OWNED: the text a marshaller returns belongs to the caller: it is not backed by a
+	// buffer taken from a pool (or any storage the next call reuses), or holding one address text while
+	// marshalling another — a message's Src and Dst, an address nested in an address — rewrites the first
+	r.Rule("C16-TEXT-OWNED", "MarshalText does not return bytes backed by a pooled or package-level buffer", 6)
+	for _, t := range typesTab {
+		mf := p.Func(t.rel, t.marshal)
+		if mf == nil {
+			continue
+		}
+		shared := ""
+		for _, ret := range core.Returns(mf) {
+			for _, v := range core.ReturnValues(ret, 0) {
+				core.BackSlice(v, func(x ssa.Value) bool {
+					switch y := x.(type) {
+					case *ssa.Call:
+						if n := core.CalleeName(y.Common()); n == "(*sync.Pool).Get" {
+							shared = "a buffer taken from a sync.Pool"
+						}
+					case *ssa.Global:
+						if !strings.HasPrefix(y.Name(), "init$") {
+							shared = "package-level variable " + y.Name()
+						}
+					}
+					return true
+				})
+			}
+		}
+		r.Check(shared == "", "C16-TEXT-OWNED", t.name+" MarshalText", p.Pos(mf.Pos()), "the returned text is freshly allocated", "the returned text is backed by "+shared+": the next MarshalText call overwrites it, so an address text that is still held (Src while Dst is marshalled, an inner address inside an outer one) turns into another address and no longer parses back to the original")
+	}
+
 	// ---- C16-NORMAL-FORM: parse(marshal(a)) == a needs more than acceptance: if the parser (or the
 	// marshaller) passes a field through a value-changing normalisation N (netip.Addr.Unmap, WithZone,
 	// strings.ToLower, ...), every other producer of that field must apply N too, or the swarm hands out
